@@ -496,7 +496,8 @@ class Canon(object):
             else:
                 return [s] + rest
             rest = list(tail) + rest
-        elif terminates(s.body) and terminates(rest):
+        elif terminates(s.body) and terminates(rest) and not (isinstance(s.test, ast.BoolOp) and isinstance(s.test.op, ast.And)):
+            # (a conjunction is split into nested ifs below instead: the nested form is what `if a: if b: ...` already is)
             # `if T: A(ends)` followed by `R(ends)`: the same two terminal alternatives, written without else
             sb, sr = _size(s.body), _size(rest)
             if sr < sb or (sr == sb and negative(s.test)):
